@@ -241,6 +241,10 @@ def phase_replay(ctx, cfgs, req_by_id):
         pos = sorted(10 ** rng.uniform(-1.5, 4.0, size=4))
         if mode != 1:
             pos = [0.05] + pos + [1.0e4]
+        if c["id"] % 4 == 1:
+            pos = pos[::-1]                      # descending
+        elif c["id"] % 4 == 2:
+            pos = pos[2:] + pos[:3] + pos[1:2]   # out of order with repeated temperatures
         real = N.Realisation(c, nu_of_level, pos, rng)
         for lang in ("C", "Py"):
             o = real.run(lang)
@@ -261,12 +265,14 @@ def phase_replay(ctx, cfgs, req_by_id):
                     else:
                         mism += TR.compare_series(rows, real, o["T"], o[Q], Q, 1, stats)
                 if o["proj"] is not None and prows is not None:
+                    nbc = len(c["lev"][0])
                     for Q in ("F", "S", "Cv"):
-                        for k in range(np.asarray(o["proj"][Q]).shape[1]):
-                            mism += TR.compare_series(prows, real, o["proj"]["T"], np.asarray(o["proj"][Q])[:, k], Q,
+                        arrQ = np.asarray(o["proj"][Q], dtype=float).reshape(-1, nbc)
+                        for k in range(nbc):
+                            mism += TR.compare_series(prows, real, o["proj"]["T"], arrQ[:, k], Q,
                                                       c["ed"], stats, k=k + 1)
                 # zero_point_energy attribute and mode counts
-                zexp = sum(t["c"] * N.THZ_TO_EV * nu_of_level(t["lev"]) / 2 for t in TR.bag_list(req["zpe"]))
+                zexp = sum(t["c"] * N.THZ_TO_EV * real.nu_of_level(t["lev"]) / 2 for t in TR.bag_list(req["zpe"]))
                 zexp *= N.UNIT["F"] / sum(c["w"])
                 if abs(o["zpe"] - zexp) > 1e-12 * max(abs(zexp), 1e-300) + 1e-300:
                     mism.append(dict(kind="zpe_attribute", got=o["zpe"], expected=zexp))
@@ -619,8 +625,32 @@ def phase_api(ctx):
             dict(kw=dict(temperatures=[0.0, 40.0, 900.0], band_indices=[[0, 1], [5]], cutoff_frequency=-1.0), T=[0.0, 40.0, 900.0]),
             dict(kw=dict(temperatures=[0.0, 7.0, 700.0], classical=True, pretend_real=True, cutoff_frequency=tie), T=[0.0, 7.0, 700.0]),
         ]
+        ph_units = None
+        if sign > 0:
+            # the same crystal in Rydberg atomic units with that calculator's frequency factor: the frequencies are THz
+            # again, so a cutoff given in THz must cut the same modes and every number must be the same
+            from phonopy.interface.calculator import get_default_physical_units
+            from phonopy.structure.atoms import PhonopyAtoms
+            from phonopy.units import Bohr, Rydberg
+
+            uc = orc.unitcell()
+            uc2 = PhonopyAtoms(symbols=uc.symbols, cell=np.array(uc.cell) / Bohr, scaled_positions=uc.scaled_positions, masses=uc.masses)
+            ph_units = Phonopy(uc2, supercell_matrix=S, factor=get_default_physical_units("qe")["factor"], log_level=0)
+            ph_units.force_constants = orc.supercell_fc(S, ph.supercell) * (Bohr ** 2 / Rydberg)
+            ph_units.run_mesh(meshno, is_gamma_center=True)
+            fr2 = np.array(ph_units.mesh.frequencies, dtype=float)
+            big = np.abs(fr) > 1e-3
+            ctx.extra["api_units_frequency_rel_diff"] = float(np.max(np.abs(fr2[big] - fr[big]) / np.abs(fr[big])))
+            gaps = [(mags[i + 1] - mags[i], i) for i in range(len(mags) - 1) if mags[i] > 0.5]
+            gi = max(gaps)[1]
+            mid = 0.5 * (mags[gi] + mags[gi + 1])
+            cases.append(dict(kw=dict(temperatures=[0.0, 30.0, 800.0], cutoff_frequency=mid), T=[0.0, 30.0, 800.0], units=True, cut_level=gi + 1))
+            # (the acoustic modes at Gamma are rounding noise of either sign in either build: kept below a small cutoff)
+            cases.append(dict(kw=dict(t_min=0, t_max=300, t_step=150, cutoff_frequency=0.01), T=[0.0, 150.0, 300.0], units=True,
+                              cut_level=sum(1 for m in mags if m < 0.01)))
         for case in cases:
             kw = case["kw"]
+            target = ph_units if case.get("units") else ph
             cid += 1
             T = case["T"]
             temps, tlevel = [], []
@@ -631,15 +661,19 @@ def phase_api(ctx):
                 tlevel.append(len(temps))
             cut = kw.get("cutoff_frequency")
             cfg = dict(id=cid, lev=lev, w=w, cutGiven=cut is not None,
-                       cut=(0 if cut is None else (-1 if cut < 0 else rank[cut])), pr=bool(kw.get("pretend_real", False)),
+                       cut=(0 if cut is None else (-1 if cut < 0 else (case["cut_level"] if "cut_level" in case else rank[cut]))), pr=bool(kw.get("pretend_real", False)),
                        biGiven="band_indices" in kw, bi=[int(b) + 1 for b in np.hstack(kw["band_indices"])] if "band_indices" in kw else [],
                        classical=bool(kw.get("classical", False)), proj=False, temps=temps, ed=1, e2=[], wl="int64", fl="c", el="c")
             real = types.SimpleNamespace(cfg=cfg, T=T, tlevel=tlevel, nu_of_level=nu_of_level)
             try:
                 with np.errstate(all="ignore"):
-                    ph.run_thermal_properties(**kw)
-                    d = ph.get_thermal_properties_dict()
-                    tp = ph.thermal_properties
+                    target.run_thermal_properties(**kw)
+                    d = target.get_thermal_properties_dict()
+                    tp = target.thermal_properties
+                    same = (list(d.keys()) == ["temperatures", "free_energy", "entropy", "heat_capacity"]
+                            and all(np.array_equal(np.asarray(a), np.asarray(b)) for a, b in zip(d.values(), tp.thermal_properties)))
+                    if not same:
+                        raise AssertionError("get_thermal_properties_dict differs from ThermalProperties.thermal_properties")
                     o = dict(status="ok", T=np.array(d["temperatures"]), F=np.array(d["free_energy"]), S=np.array(d["entropy"]),
                              Cv=np.array(d["heat_capacity"]), zpe=float(tp.zero_point_energy), nmodes=int(tp.number_of_modes),
                              nint=int(tp.number_of_integrated_modes))
@@ -693,6 +727,89 @@ def phase_api(ctx):
         ctx.violation(key, "C10 Phonopy.run_thermal_properties: %s mismatch against the required harmonic sums" % d["mismatch"]["kind"], d)
 
 
+# ------------------------------------------------------------------------------
+ARGS_INVS = ["InvRangeIsTheGrid", "ImplRange", "ConformsRange", "InvProjectionRefusedOrCorrect",
+             "ImplProjectionRefusedOrCorrect", "ConformsGuard", "ImplYamlParses", "ImplYamlNoNonFinite", "ImplYamlRows",
+             "ImplYamlValues", "ImplYamlEnergy", "ImplYamlHeader", "ImplYamlNatom", "ImplYamlProjected"]
+ARGS_VARIANTS = [dict(guardsProjection=g, rangeStopsAtMax=r) for g, r in ((False, False), (True, True), (False, True), (True, False))]
+
+
+def phase_args(ctx):
+    """ThermalArgs.tla: temperature grids, is_projection through the API (reduced mesh / no eigenvectors), write_yaml."""
+    from harness import c10_args as A
+
+    rng = np.random.default_rng(ctx.seed + 71)
+    gev, gwit, ph = A.guard_events(ctx)
+    rev = A.range_events(ctx, rng, api_ph=ph)
+    yev, ywit = A.yaml_events(ctx, rng)
+    keep_r = ("part", "id", "exact", "got", "args")
+    keep_g = ("part", "isProj", "withEig", "mesh", "outcome")
+    payload = dict(range=[{k: e[k] for k in keep_r} for e in rev], guard=[{k: e[k] for k in keep_g} for e in gev],
+                   yaml=[{k: v for k, v in e.items() if k != "err"} for e in yev])
+    # every action fires (coverage is per top-level action, so this run has no judge wrapper)
+    body0 = ("MCJ == JsonDeserialize(\"events.json\")\nMCRange == LET J == MCJ.range IN {J[i] : i \\in DOMAIN J}\n"
+             "MCGuard == LET J == MCJ.guard IN {J[i] : i \\in DOMAIN J}\nMCYaml == LET J == MCJ.yaml IN {J[i] : i \\in DOMAIN J}\n"
+             "MCApiVariant == %s\n" % to_tla(ARGS_VARIANTS[0]))
+    res0 = ctx.tlc("MC_ThermalArgs", cfg_text=("INIT Init\nNEXT Next\nCONSTANTS\n RangeArgs = {}\n RangeEvents <- MCRange\n GuardEvents <- MCGuard\n"
+                                               " YamlEvents <- MCYaml\n ApiVariant <- MCApiVariant\nCHECK_DEADLOCK FALSE\n"),
+                   extra_files={"MC_ThermalArgs.tla": "---- MODULE MC_ThermalArgs ----\nEXTENDS ThermalArgs, Json\n" + body0 + "====\n",
+                                "events.json": json.dumps(payload)}, requirement=False, workers=2, coverage=True, keep=True)
+    fired = {k: v[1] for k, v in res0.coverage.items() if k in ("ClampMin", "ClampMax", "ClampStep", "MakeGrid", "ApiRun", "YamlStep")}
+    tlcmod.cleanup(res0)
+    ctx.extra["args_actions_fired"] = fired
+    if len(fired) < 6 or min(fired.values()) == 0:
+        raise tlcmod.MachineryError("ThermalArgs actions never fired: %s" % fired)
+    identified = None
+    names_first = None
+    for vi, var in enumerate(ARGS_VARIANTS):
+        body = ("MCJ == JsonDeserialize(\"events.json\")\n"
+                "MCRange == LET J == MCJ.range IN {J[i] : i \\in DOMAIN J}\n"
+                "MCGuard == LET J == MCJ.guard IN {J[i] : i \\in DOMAIN J}\n"
+                "MCYaml == LET J == MCJ.yaml IN {J[i] : i \\in DOMAIN J}\n"
+                "MCArgs == ArgSpace\nMCApiVariant == %s\n" % to_tla(var))
+        name = "MC_ThermalArgs"
+        mod = once_module(name, "ThermalArgs, Json", body, ARGS_INVS, judge=dict(init="Init", next="Next", vars="vars", cond='pc = "done"'))
+        cfg = ("INIT MCInit_\nNEXT MCNext_\nCONSTANTS\n RangeArgs <- MCArgs\n RangeEvents <- MCRange\n GuardEvents <- MCGuard\n"
+               " YamlEvents <- MCYaml\n ApiVariant <- MCApiVariant\nCHECK_DEADLOCK FALSE\n"
+               + "".join("INVARIANT O_%s\n" % v for v in ARGS_INVS))
+        res = ctx.tlc(name, cfg_text=cfg, extra_files={name + ".tla": mod, "events.json": json.dumps(payload)},
+                      requirement=False, extra_args=("-continue",), workers=4, keep=True)
+        if res.kind == "assumption":
+            tlcmod.cleanup(res)
+            raise tlcmod.MachineryError("ThermalArgs: a lemma of the orbit algebra is false: %s" % res.violated)
+        names = violated_names(res)
+        if vi == 0:
+            names_first = names
+        tlcmod.cleanup(res)
+        if not any(n.startswith("Conforms") for n in names):
+            identified = var
+            final = names
+            break
+    if identified is None:
+        final = [n for n in names_first if n.startswith("Impl")]
+        ctx.extra["SPEC-DRIFT-ARGS"] = "no modelled variant of ThermalArgs.tla conforms"
+        print("SPEC-DRIFT C10: no modelled variant of ThermalArgs.tla conforms; requirement judged on logged values only")
+    ctx.extra["args_identified_variant"] = identified
+    ctx.extra["args_violated"] = final
+    ctx.extra["args_events"] = dict(range=len(rev), guard=len(gev), yaml=len(yev))
+    bad_range = [dict(kwargs=e["kw"], route=e["route"], ticks_per_K=e["args"]["den"], reported_ticks=e["got"][-4:]) for e in rev]
+    for n in final:
+        if n.startswith("Conforms"):
+            continue
+        if "Range" in n:
+            # a recorded call whose last temperature lies beyond t_max
+            w = [b for b, e in zip(bad_range, rev) if e["args"]["gmax"] and e["got"] and e["got"][-1] > max(e["args"]["tmax"], e["args"]["tmin"], 0)]
+            wit = w[:3]
+        elif "Projection" in n:
+            wit = gwit
+        else:
+            wit = ywit
+        pre = "tlc:ThermalArgs:" if n.startswith("Inv") else "args:"
+        ctx.violation(pre + n, ("TLC: %s violated in ThermalArgs.tla for the identified variant %s" % (n, identified)) if n.startswith("Inv")
+                      else "C10 requirement %s fails on values recorded from the real code" % n,
+                      dict(invariant=n, variant=identified, witness=wit))
+
+
 def run(ctx):
     ctx.rule = ("a case is one (mesh levels, weights, cutoff, pretend_real, band_indices, is_projection, classical, "
                 "temperature list) configuration run on both code paths; non-trivial = distinct configuration id per "
@@ -705,7 +822,7 @@ def run(ctx):
         "(cancellation of the coded exp(x) - 1); identities 1e-6 / 1e-4 / 1e-2 N k_B for the same classes",
         "decoding realisation: four frequency levels 2^-6 * 2^{2,5,8,10} THz, 16 temperatures 2 K .. 3000 K",
     ]
-    phases = os.environ.get("C10_PHASES", "trace,replay,model,ieee,identities,api").split(",")
+    phases = os.environ.get("C10_PHASES", "trace,replay,model,ieee,identities,api,args").split(",")
     variant = None
     if "trace" in phases:
         cfgs, req_by_id, variant = phase_trace(ctx)
@@ -720,3 +837,5 @@ def run(ctx):
         phase_identities(ctx)
     if "api" in phases:
         phase_api(ctx)
+    if "args" in phases:
+        phase_args(ctx)
